@@ -161,6 +161,7 @@ fn thread_main(prog: Vec<IOp>, grant: Receiver<()>, done: Sender<(Snap, bool)>) 
 pub struct CaseOut {
     pub obs: Vec<String>,
     pub oracle: Vec<String>,
+    pub poisoned: bool,
 }
 
 fn obs_line(len: usize, snaps: &[Snap]) -> String {
@@ -200,6 +201,7 @@ pub fn run_case(case: &Case) -> CaseOut {
     let mut order: Vec<usize> = case.sched.clone();
     // drain phase: after the schedule, run every thread to completion, lowest id first
     let mut step_no = 0usize;
+    let mut poisoned = false;
     let mut k = 0usize;
     let mut drain_tid = 0usize;
     loop {
@@ -240,7 +242,17 @@ pub fn run_case(case: &Case) -> CaseOut {
                 continue;
             }
         }
-        let len = hook::table_len() - base_len;
+        let len = match std::panic::catch_unwind(hook::table_len) {
+            Ok(l) => l - base_len,
+            Err(_) => {
+                oracle.push(format!(
+                    "C18 step {step_no}: the intern table lock is poisoned (a thread panicked inside a SharedString operation)"
+                ));
+                obs.push("POISONED".to_string());
+                poisoned = true;
+                break;
+            }
+        };
         obs.push(obs_line(len, &snaps));
         // oracles of the property itself
         let mut by_content: BTreeMap<i64, usize> = BTreeMap::new();
@@ -260,13 +272,26 @@ pub fn run_case(case: &Case) -> CaseOut {
         }
         step_no += 1;
     }
+    if poisoned {
+        // the process-wide table is unusable from here on: abandon the worker threads
+        drop(grants);
+        hook::set_yield_callback(None);
+        return CaseOut { obs, oracle, poisoned: true };
+    }
     for j in joins {
         if j.join().is_err() {
             oracle.push("C18: a thread panicked".to_string());
         }
     }
     let all_dropped = snaps.iter().all(|s| s.is_empty());
-    let len = hook::table_len();
+    let len = match std::panic::catch_unwind(hook::table_len) {
+        Ok(l) => l,
+        Err(_) => {
+            oracle.push("C18 final: the intern table lock is poisoned (a thread panicked inside a SharedString operation)".to_string());
+            hook::set_yield_callback(None);
+            return CaseOut { obs, oracle, poisoned: true };
+        }
+    };
     obs.push(format!("final len={len}"));
     if all_dropped && len != 0 {
         oracle.push(format!("C18 final: every handle was dropped but the intern table still has {len} entries"));
@@ -274,7 +299,7 @@ pub fn run_case(case: &Case) -> CaseOut {
     hook::set_yield_callback(None);
     // leaked handles of this case (programs that do not drop everything) would pollute later cases:
     // such programs are generated only as the last step of a case file? No: we forbid them (see gen).
-    CaseOut { obs, oracle }
+    CaseOut { obs, oracle, poisoned: false }
 }
 
 /// random programs: slot-linear, every handle dropped by its thread at the end
@@ -402,6 +427,49 @@ pub fn soak(seed: u64, threads: usize, ops: usize) -> Vec<String> {
     if len != 0 {
         out.push(format!("C18 soak: all handles dropped but the intern table has {len} entries"));
     }
+    // racing last releases: two threads drop the last two handles of one buffer at the same moment
+    // (the window inside Arc's reference count, below the yield hook's granularity); afterwards the
+    // table must be empty again
+    let rounds = (ops / 5).max(1000);
+    let start = std::sync::Arc::new(std::sync::atomic::AtomicUsize::new(0));
+    let ready = std::sync::Arc::new(std::sync::atomic::AtomicUsize::new(0));
+    let mut leaks = 0usize;
+    for r in 0..rounds {
+        let content: Vec<u8> = format!("race-{seed}-{r}").into_bytes();
+        let a = SharedString::new(content);
+        let b = a.clone();
+        let s1 = start.clone();
+        let r1 = ready.clone();
+        let target = r + 1;
+        let t = std::thread::spawn(move || {
+            r1.store(target, std::sync::atomic::Ordering::Release);
+            while s1.load(std::sync::atomic::Ordering::Acquire) < target {
+                std::hint::spin_loop();
+            }
+            drop(b);
+        });
+        while ready.load(std::sync::atomic::Ordering::Acquire) < target {
+            std::hint::spin_loop();
+        }
+        start.store(target, std::sync::atomic::Ordering::Release);
+        drop(a);
+        let _ = t.join();
+        let l = hook::table_len();
+        if l != 0 {
+            leaks += 1;
+            if leaks == 1 {
+                out.push(format!(
+                    "C18 soak: after two threads released the last two handles of one buffer concurrently (round {r}) the intern table still has {l} entries"
+                ));
+            }
+            if leaks > 3 {
+                break;
+            }
+        }
+        if r >= 20000 && ops < 1_000_000 {
+            break;
+        }
+    }
     out
 }
 
@@ -463,6 +531,11 @@ pub fn cli(args: &[String]) -> bool {
                 writeln!(obs, "end").unwrap();
                 for o in &r.oracle {
                     writeln!(orc, "{id} {o}").unwrap();
+                }
+                if r.poisoned {
+                    // nothing after this case can be trusted in this process
+                    *stats.entry("aborted_after_poison".into()).or_insert(0) += 1;
+                    break;
                 }
                 *stats.entry("steps".into()).or_insert(0) += r.obs.len() as u64;
                 *stats.entry(format!("threads_{}", c.progs.len())).or_insert(0) += 1;
